@@ -258,7 +258,9 @@ type c41Result struct {
 	err      string
 }
 
-const c41Slack = 2 * time.Second
+// A dial must return within its own timeout (deadline fixed when the call starts) plus this
+// slack.  The directed slot-wait scenario uses waits well above it.
+const c41Slack = 1200 * time.Millisecond
 
 func c41RunOne(t *testing.T, nw *c41Net, conc int, dials []c41Dial, trNo int) (evs []vfRec, key, detail string, infra string) {
 	d := &TCPDialer{Concurrency: conc, Resolver: c41Resolver{}}
@@ -272,7 +274,7 @@ func c41RunOne(t *testing.T, nw *c41Net, conc int, dials []c41Dial, trNo int) (e
 		rec.hostOf[i+1] = dl.host
 		hosts[i] = dl.host + 1
 	}
-	rec.evs = append(rec.evs, vfRec{"ev": "init", "conc": conc, "nd": 5, "table": table, "hosts": hosts, "tr": trNo})
+	rec.evs = append(rec.evs, vfRec{"ev": "init", "conc": conc, "nd": 5, "table": table, "hosts": hosts, "tr": trNo, "slackms": c41Slack.Milliseconds()})
 	VerifHook = rec.hook
 	defer func() { VerifHook = nil }()
 	res := make([]c41Result, len(dials))
@@ -324,7 +326,11 @@ func c41RunOne(t *testing.T, nw *c41Net, conc int, dials []c41Dial, trNo int) (e
 			if r.upstream {
 				b = 1
 			}
-			rec.evs = append(rec.evs, vfRec{"ev": "h.return", "g": g, "a": r.class, "b": b, "pos": -1})
+			late := (dur - dl.timeout).Milliseconds()
+			if late < 0 {
+				late = 0
+			}
+			rec.evs = append(rec.evs, vfRec{"ev": "h.return", "g": g, "a": r.class, "b": b, "pos": -1, "latems": late})
 			res[i] = r
 			rec.mu.Unlock()
 		}(i, dl)
@@ -398,6 +404,16 @@ func TestVerifC41Dialer(t *testing.T) {
 			if i%3 == 1 { // directed: a hanging dial holds a slot while others queue for it
 				dials[0] = c41Dial{host: 4, timeout: 400 * time.Millisecond}
 				dials[1] = c41Dial{host: 0, timeout: 150 * time.Millisecond, delay: 30 * time.Millisecond}
+			}
+			if i == 2 && conc > 0 {
+				// directed: every slot is held by a hanging dial for 2.5 s; one more dial queues for
+				// a slot, gets it before its own deadline (3.5 s) and then hangs as well: the time
+				// spent queueing counts against ITS deadline
+				dials = dials[:0]
+				for k := 0; k < conc; k++ {
+					dials = append(dials, c41Dial{host: 4, timeout: 2500 * time.Millisecond})
+				}
+				dials = append(dials, c41Dial{host: 4, timeout: 3500 * time.Millisecond, delay: 100 * time.Millisecond})
 			}
 			evs, key, detail, infra := c41RunOne(t, nw, conc, dials, i)
 			if infra != "" {
